@@ -18,7 +18,14 @@ and the escaped segment / message lines are compared with the model (`segLineM`,
 impl = real HTML, model = Lean driver (ops H19*), want = the statement above evaluated on the source text.
 
 Out of scope (skipped and counted): runs in which x12n_document raises (C07) - with or without the HTML sink.
-Completeness of the err_iter cursor is *checked* here, not proved.
+
+Cursor tie (lean/Pyx12Verif/Model/ErrIter.lean, Props/C19Iter.lean, driver op I19R): the err_handler call sequence of every run
+is captured the way harness/c05.py does it, with a `dr <segment id>` marker at the end of each loop body; the model replays
+the calls on the ErrTree model, drains its `err_iter` cursor at every marker and lists what `gen_seg` / `footer` write.  The
+sequence (segment line | "Segment Error Code: c" | "Element Error Code: c") read from the real HTML must be the model's
+sequence: which error is shown next to which segment - including the errors that are *not* shown (the five known
+`pred:error-not-next-to-its-segment:*` classes) - is then a consequence of the proved cursor model, not only an observation.
+A disagreement is `correspondence:ErrIter.report`.
 """
 import io
 import os
@@ -313,8 +320,57 @@ def run_real(text, with_html=True):
         raise common.Infra('pyx12 entry point missing: %r' % (e,))
     events = []
     counter = [0]
+    fields = []          # the err_handler call sequence in the encoding of driver op E5 (harness/c05.py) + `dr` markers
+
+    def opt(v):
+        return '-' if v is None else '+' + v
+
+    def py_int(v):
+        if v is None:
+            return 'absent'
+        try:
+            return 'n%d' % int(v)
+        except ValueError:
+            return 'bad'
 
     class Recording(base):
+        def add_isa_loop(self, seg, src):
+            fields.append('ai')
+            fields.extend(opt(seg.get_value('ISA%02d' % i)) for i in range(5, 16))
+            return base.add_isa_loop(self, seg, src)
+
+        def add_gs_loop(self, seg, src):
+            fields.append('ag')
+            fields.extend(opt(seg.get_value('GS%02d' % i)) for i in (1, 2, 3, 6, 7, 8))
+            fields.append(opt(src.get_gs_id()))
+            return base.add_gs_loop(self, seg, src)
+
+        def add_st_loop(self, seg, src):
+            fields.extend(['as', opt(seg.get_value('ST01')), opt(seg.get_value('ST03')), opt(src.get_st_id())])
+            return base.add_st_loop(self, seg, src)
+
+        def add_seg(self, map_node, seg, seg_count, cur_line, ls_id):
+            fields.extend(['sg', seg.get_seg_id(), str(seg_count), opt(ls_id)])
+            return base.add_seg(self, map_node, seg, seg_count, cur_line, ls_id)
+
+        def add_ele(self, map_node):
+            r = base.add_ele(self, map_node)
+            e = self.cur_ele_node
+            fields.extend(['el', str(e.ele_pos), '-' if e.subele_pos is None else '+%d' % e.subele_pos, opt(e.ele_ref_num)])
+            return r
+
+        def close_isa_loop(self, node, seg, src):
+            fields.append('ci')
+            return base.close_isa_loop(self, node, seg, src)
+
+        def close_gs_loop(self, node, seg, src):
+            fields.extend(['cg', py_int(seg.get_value('GE01')) if seg is not None else 'absent', str(src.st_count)])
+            return base.close_gs_loop(self, node, seg, src)
+
+        def close_st_loop(self, node, seg, src):
+            fields.append('cs')
+            return base.close_st_loop(self, node, seg, src)
+
         def _c19(self, level, cde, msg, call):
             before = tree_index(self)
             try:
@@ -328,25 +384,31 @@ def run_real(text, with_html=True):
                 events.append((level, cde, msg, counter[0] + 1, host))
 
         def isa_error(self, err_cde, err_str):
+            fields.extend(['ie', err_cde])
             self._c19('isa', err_cde, err_str, lambda: base.isa_error(self, err_cde, err_str))
 
         def gs_error(self, err_cde, err_str):
+            fields.extend(['ge', err_cde])
             self._c19('gs', err_cde, err_str, lambda: base.gs_error(self, err_cde, err_str))
 
         def st_error(self, err_cde, err_str):
+            fields.extend(['se', err_cde])
             self._c19('st', err_cde, err_str, lambda: base.st_error(self, err_cde, err_str))
 
         def seg_error(self, err_cde, err_str, err_value=None, src_line=None):
+            fields.extend(['sr', err_cde, opt(err_value)])
             self._c19('seg', err_cde, err_str, lambda: base.seg_error(self, err_cde, err_str, err_value, src_line))
 
         def ele_error(self, err_cde, err_str, bad_value, refdes=None):
+            fields.extend(['er', err_cde, err_str, opt(bad_value)])
             self._c19('ele', err_cde, err_str, lambda: base.ele_error(self, err_cde, err_str, bad_value, refdes))
 
     def callback(seg, src, node, valid):
         counter[0] += 1
+        fields.extend(['dr', seg.get_seg_id()])      # the callback runs just before the drain loop of this segment
 
     sink = io.StringIO() if with_html else None
-    res = {'status': 'ok', 'html': None, 'events': events, 'exc': None, 'ncb': 0}
+    res = {'status': 'ok', 'html': None, 'events': events, 'exc': None, 'ncb': 0, 'fields': fields}
     pyx12.error_handler.err_handler = Recording
     try:
         entry(pyx12.params.params(), io.StringIO(text), None, sink, None, callback=callback)
@@ -402,6 +464,28 @@ def miss_cause(ev, ids):
     return 'other'
 
 
+ERR_TAIL = re.compile(r'\((Segment|Element) Error Code: ([^()]*)\)$')
+
+
+def report_tokens(problems, items):
+    """the report as the cursor model lists it: '#' per segment line, 'S:<code>' / 'E:<code>' per message, in order;
+    None when the structure of the report is not intact (input markup got through: reported as pred:unescaped:*)"""
+    if problems:
+        return None
+    out = []
+    for it in items:
+        if it.problems:
+            return None
+        if it.cls == 'seg':
+            out.append('#')
+        elif it.cls == 'error':
+            m = ERR_TAIL.search(decode(it.text()))
+            if m is None:
+                return None
+            out.append(('S:' if m.group(1) == 'Segment' else 'E:') + common.esc(m.group(2)))
+    return out
+
+
 def oracle(text, real):
     """-> (violations [(key, what)], info dict) for one completed run"""
     viol = []
@@ -411,6 +495,7 @@ def oracle(text, real):
     ids = [r.split(el)[0] for r in raws]
     info['nseg'] = len(raws)
     problems, items = parse_report(html)
+    info['iter'] = (common.line('I19R', *real['fields']), report_tokens(problems, items)) if 'fields' in real else None
     seen = set()
 
     def add(key, what):
@@ -755,7 +840,7 @@ def build_case(cid, seed):
 
 def do_case(args):
     cid, seed = args
-    out = {'cid': cid, 'status': 'ok', 'viol': [], 'ops': [], 'desc': None, 'stats': {}}
+    out = {'cid': cid, 'status': 'ok', 'viol': [], 'ops': [], 'desc': None, 'stats': {}, 'iter': None}
     try:
         case = build_case(cid, seed)
     except common.Infra:
@@ -776,6 +861,7 @@ def do_case(args):
     viol, info = oracle(case['text'], real)
     out['viol'] = viol
     out['ops'] = info.pop('model_ops')
+    out['iter'] = info.pop('iter', None)
     out['stats'] = info
     return out
 
@@ -810,11 +896,91 @@ def check_escape_direct(res, rnd, built):
     res.notes['escape_direct'] = len(cases)
 
 
+def audit_extra(res, name):
+    """the theorems of Props/<name>.lean (Audit/<name>.lean) as obligations of this check"""
+    axioms, missing, (rc, tail) = common.lean_audit(name)
+    for thm, ax in sorted(axioms.items()):
+        res.obligations.append(thm)
+        if set(ax) <= common.STD_AXIOMS:
+            res.discharged.append(thm)
+        else:
+            res.broke('axioms:' + thm, 'depends on ' + ', '.join(ax))
+    for m in missing:
+        res.obligations.append(m)
+        res.broke('theorem:' + m, 'not found by the audit: ' + tail[-500:])
+    if rc != 0 and not missing:
+        res.broke('audit:' + name, tail[-500:])
+
+
+def compare_cursor(res, outs):
+    """the report read from the real HTML vs. the cursor model run over the captured call sequence (driver op I19R)"""
+    stat = {'documents': 0, 'skipped_report_not_intact': 0, 'lines': 0, 'messages': 0, 'nodes_handed_over': 0,
+            'segments_with_nodes': 0, 'footer_messages': 0, 'documents_with_a_known_finding': 0, 'disagreements': 0}
+    todo = []
+    for o in outs:
+        if o['status'] != 'ok' or not o.get('iter'):
+            continue
+        if o['iter'][1] is None:
+            stat['skipped_report_not_intact'] += 1
+            continue
+        todo.append(o)
+    # unterminated loops (the messages of error_html.footer): every 6th document once more without its last 1-3 segments;
+    # only the cursor model is compared on these (the oracle's classes are about complete documents)
+    stat['truncated_documents'] = 0
+    for o in [x for x in outs if x['status'] == 'ok' and x.get('iter')][::6]:
+        se, el, su, raws = split_source(o['text'])
+        cut = 1 + (o['cid'] // 6) % 3
+        if len(raws) <= cut + 1:
+            continue
+        pieces = o['text'].split(se)
+        text = se.join(pieces[:len(pieces) - 1 - cut]) + se
+        real = run_real(text)
+        if real['status'] != 'ok':
+            continue
+        toks = report_tokens(*parse_report(real['html']))
+        if toks is None:
+            continue
+        stat['truncated_documents'] += 1
+        todo.append({'cid': o['cid'], 'desc': dict(o['desc'], faults=o['desc']['faults'] + ['cut_last_%d' % cut]), 'viol': [],
+                     'iter': (common.line('I19R', *real['fields']), toks)})
+    answers = common.run_model([o['iter'][0] for o in todo])
+    for o, ans in zip(todo, answers):
+        stat['documents'] += 1
+        real = o['iter'][1]
+        parts = ans.split('\t')
+        if parts[0] != 'ok' or parts.count('|') != 2:
+            stat['disagreements'] += 1
+            res.broke('correspondence:ErrIter.run', 'case %d (%s): x12n_document completed, the model answers %r' %
+                      (o['cid'], o['desc']['map'], ans[:200]))
+            continue
+        a = parts.index('|')
+        b = parts.index('|', a + 1)
+        body, foot, counts = parts[1:a], parts[a + 1:b], [int(x[1:]) for x in parts[b + 1:]]
+        model = body + foot
+        stat['lines'] += len(real)
+        stat['messages'] += len([x for x in real if x != '#'])
+        stat['footer_messages'] += len(foot)
+        stat['nodes_handed_over'] += sum(counts)
+        stat['segments_with_nodes'] += len([c for c in counts if c])
+        if any(k.startswith('pred:error-not-next-to-its-segment:') for k, _ in o['viol']):
+            stat['documents_with_a_known_finding'] += 1
+        if model != real:
+            stat['disagreements'] += 1
+            at = next((n for n, (x, y) in enumerate(zip(model, real)) if x != y), min(len(model), len(real)))
+            nseg = real[:at].count('#')
+            res.broke('correspondence:ErrIter.report',
+                      'case %d (%s, faults %s): first difference after segment line %d: report shows %r, model %r' %
+                      (o['cid'], o['desc']['map'], o['desc']['faults'], nseg, real[at:at + 4], model[at:at + 4]))
+    return stat
+
+
 def run(tier):
     res = common.Result('C19', tier)
     res.cov['rule'] = ('a case is one generated document (map, seeded values, 0-3 faults, special characters, delimiters); distinct by '
                        'text; non-trivial = at least one error shown or a special character / exotic delimiter present')
     built = common.proof_stage(res, 'C19')
+    if built:
+        audit_extra(res, 'C19Iter')
     seed = common.seed()
     n = 10000 if tier == 'thorough' else 300
     todo = [(cid, seed) for cid in range(n)]
@@ -865,6 +1031,7 @@ def run(tier):
         for op, o in ops:
             if op[0] is None and not o['viol']:
                 res.broke('correspondence:Html.marks', 'case %d: %s' % (o['cid'], op[2]))
+        res.notes['cursor_model'] = compare_cursor(res, outs)
     check_escape_direct(res, random.Random(seed * 31 + 19), built)
     res.notes['input_distribution'] = {'status': status, 'faults': faults, 'delimiters': delims, 'maps': len(maps)}
     res.notes['totals'] = tot
@@ -880,7 +1047,9 @@ def run(tier):
     ]
     return res.finish(trusted=common.TRUSTED_COMMON + [
         'modelled: escape_html_chars, error_html.gen_seg/_seg_str/seg_str/_wrap_ele_error/gen_info, header/footer frame, the per-segment '
-        'loop of x12n_document (fd_html branch); not modelled: err_iter and the error tree (oracle only)',
+        'loop of x12n_document (fd_html branch), err_iter + the drain loop + get_error_list + the message order of gen_seg/footer '
+        '(Model/ErrIter.lean over the tree of Model/ErrTree.lean, compared on every document through the captured err_handler '
+        'call sequence)',
         'own HTML tokenizer and own source splitter in harness/c19.py'])
 
 
